@@ -63,7 +63,7 @@ def run(ctx):
     ctx.cov.update({
         "exhaustive": True,
         "cells": {"construct": ncons, "compare": len(cells) - ncons},
-        "evaluations": len(cells) * reps,
+        "evaluations": sum(int(x.get("evals", 0)) for x in res),
         "distinct_nontrivial": sum(1 for c in cells if c["mode"] == "compare" or not c["exists"]),
         "rule": "construct: value exists <=> content valid for the kind (text: UTF-8 without NUL; identifier: [a-zA-Z][a-zA-Z0-9_]*), existing value == presented content; compare: ==, cmp, partial_cmp, hash, const_eq, PartialEq<str>, Borrow<str> lookups equal those of the contents for every pair of storage forms",
         "reps_per_cell": reps,
